@@ -10,6 +10,7 @@ import Vore.Driver.OpsC18
 import Vore.Driver.OpsC11
 import Vore.Driver.OpsC14
 import Vore.Driver.OpsMS
+import Vore.Driver.OpsDs
 /-!
 # Vore.Driver.Ops — registry of the per-property driver operations
 
@@ -19,6 +20,6 @@ Each property that needs its own line-protocol operations defines, in
 -/
 namespace Vore.Driver
 
-def extraOps : List (String → List String → Option String) := [handleParse, handleC04, handleC05, handleC07, handleC20, handleLex, handleC17, handleC18, handleC11, handleC14, handleMS]
+def extraOps : List (String → List String → Option String) := [handleParse, handleC04, handleC05, handleC07, handleC20, handleLex, handleC17, handleC18, handleC11, handleC14, handleMS, handleDs]
 
 end Vore.Driver
